@@ -29,7 +29,7 @@ SETTINGS = [
     ("ts", ["ThompsonSampling", {}], "binary"),
     ("rnd", ["Random", {}], "real"),
 ]
-REWARDS = {"real": [-1.5, 0, 2, 1e6], "nonneg": [0, 1, 3], "binary": [0, 1]}
+REWARDS = {"real": [-1.5, 0, 2, 1e6], "nonneg": [0, 1e-9, 1, 3], "binary": [0, 1]}
 LABELS = {"int": ([1, 2], 3), "str": (["b", "a"], "c")}
 
 
